@@ -10,6 +10,7 @@ import (
 	"log/slog"
 	"runtime"
 	"runtime/debug"
+	"slices"
 	"strings"
 	"sync"
 
@@ -66,8 +67,10 @@ func NewTable(file storage.File) *Table {
 }
 
 type TableDocument struct {
-	StartKey    string
-	EndKey      string
+	// Keys are arbitrary bytes: as []byte they are base64 encoded in the JSON
+	// checkpoint document. (A string would be mangled wherever it is not UTF-8.)
+	StartKey    []byte
+	EndKey      []byte
 	Size        uint64
 	EntriesSize uint64
 	URI         string
@@ -85,8 +88,8 @@ func NewTableFromDocument(fs storage.FileSystem, dataOwnership kv.DataOwnership,
 		file:        fs.Open(doc.URI),
 		size:        int64(doc.Size),
 		entriesSize: int64(doc.EntriesSize),
-		startKey:    []byte(doc.StartKey),
-		endKey:      []byte(doc.EndKey),
+		startKey:    slices.Clone(doc.StartKey),
+		endKey:      slices.Clone(doc.EndKey),
 		startSeqNum: doc.StartSeqNum,
 		endSeqNum:   doc.EndSeqNum,
 	}
@@ -101,8 +104,8 @@ func NewTableFromDocument(fs storage.FileSystem, dataOwnership kv.DataOwnership,
 	params := CleanupParams{
 		deleteFunc:    t.file.CreateDeleteFunc(),
 		dataOwnership: dataOwnership,
-		startKey:      []byte(doc.StartKey),
-		endKey:        []byte(doc.EndKey),
+		startKey:      slices.Clone(doc.StartKey),
+		endKey:        slices.Clone(doc.EndKey),
 		uri:           doc.URI,
 	}
 
@@ -351,8 +354,8 @@ func (t *Table) ensureMetadataLoaded() {
 
 func (t *Table) Document() TableDocument {
 	return TableDocument{
-		StartKey:    string(t.startKey),
-		EndKey:      string(t.endKey),
+		StartKey:    slices.Clone(t.startKey),
+		EndKey:      slices.Clone(t.endKey),
 		Size:        uint64(t.size),
 		EntriesSize: uint64(t.entriesSize),
 		URI:         t.file.URI(),
